@@ -1,2 +1,104 @@
-(* PropsC02.v — C02: variable expansion is late-bound substitution with a fixed lookup order. *)
-From Ucfg Require Import Base ParseInt Consts Field Tree PathOps Merge VarParse Normalize VarEval.
+(* PropsC02.v — C02: variable expansion is late-bound substitution with a fixed lookup order.
+   Statements only; proofs are in ProofsVarEval.v.  Every theorem holds for EVERY recursive
+   evaluator dv and loop bound fuel0 (the model's evaluator at any fuel is an instance).
+
+   PARTIAL: proved are the lookup order (own tree first, then the Env configs most recent
+   first, then the resolvers most recent first), the behaviour of each operator given the
+   outcome of its reference, that an unresolvable reference is an error, and that names
+   registered by one piece of a string are invisible to the next. NOT proved: that the result
+   of a whole evaluation equals a textual substitution specification for all expressions (the
+   correspondence run compares the model with the implementation read by read instead), and
+   late binding across merges (the model evaluates at read time by construction: dynamic
+   values are stored unevaluated in the tree, Normalize.normalize_string). *)
+From Ucfg Require Import Base ParseInt Consts Field Tree PathOps Merge OTree F64 ParseValue VarParse
+     Normalize Flags Ops VarEval ProofsVarEval.
+
+Theorem c02_own_tree_first_partial : forall o dv fuel0 root a p sep v a',
+  act_has (path_str p sep) a = false ->
+  get_path_dyn dv fuel0 p (act_add (path_str p sep) a) {| l_root := root; l_path := ""; l_val := root |}
+    = Ok (Ok (Some v), a') ->
+  resolve_ref o dv fuel0 root a p sep = (RFound v, a').
+Proof. exact resolve_ref_own_tree_first. Qed.
+Print Assumptions c02_own_tree_first_partial.
+
+Theorem c02_then_latest_env_partial : forall o dv fuel0 root a p sep a' envs e v a'',
+  act_has (path_str p sep) a = false ->
+  get_path_dyn dv fuel0 p (act_add (path_str p sep) a) {| l_root := root; l_path := ""; l_val := root |}
+    = Ok (Err EMissing "", a') ->
+  eo_envs o = envs ++ [e] ->
+  get_path_dyn dv fuel0 p a' {| l_root := e; l_path := ""; l_val := e |} = Ok (Ok (Some v), a'') ->
+  resolve_ref o dv fuel0 root a p sep = (RFound v, a'').
+Proof. exact resolve_ref_then_envs. Qed.
+Print Assumptions c02_then_latest_env_partial.
+
+Theorem c02_latest_resolver_wins_partial : forall o rs t n x,
+  eo_res o = rs ++ [t] -> dict_get n t = Some x -> resolve_env o n = Some x.
+Proof. exact resolve_env_latest_wins. Qed.
+Print Assumptions c02_latest_resolver_wins_partial.
+
+Theorem c02_earlier_resolvers_next_partial : forall o rs t n,
+  eo_res o = rs ++ [t] -> dict_get n t = None -> resolve_env o n = ask_resolvers (rev rs) n.
+Proof. exact resolve_env_falls_back. Qed.
+Print Assumptions c02_earlier_resolvers_next_partial.
+
+Theorem c02_unresolved_is_error_partial : forall o dv fuel0 root a p sep a',
+  resolve_ref o dv fuel0 root a p sep = (RMissing, a') \/ resolve_ref o dv fuel0 root a p sep = (RNone, a') ->
+  resolve_env o (path_str p sep) = None ->
+  ref_eval o dv fuel0 root a p sep = Err EMissing "!raw".
+Proof. exact unresolved_reference_is_error. Qed.
+Print Assumptions c02_unresolved_is_error_partial.
+
+Theorem c02_empty_resolver_value_is_error_partial : forall o dv fuel0 root a p sep a' pc,
+  resolve_ref o dv fuel0 root a p sep = (RMissing, a') ->
+  resolve_env o (path_str p sep) = Some ("", pc) ->
+  ref_eval o dv fuel0 root a p sep = Err EOther "!raw".
+Proof. exact empty_resolver_value_is_error. Qed.
+Print Assumptions c02_empty_resolver_value_is_error_partial.
+
+Theorem c02_default_when_unset_partial : forall o dv fuel0 root a l r sep path a1 e pth,
+  scoped a (eval_exp o dv fuel0 l root (act_push a)) = Ok (path, a1) -> path <> "" ->
+  scoped a1 (ref_eval o dv fuel0 root (act_push a1)
+               (parse_path path sep (p_maxIdx (eo_p o)) (p_numKeys (eo_p o)) (p_escape (eo_p o))) sep)
+    = Err e pth ->
+  eval_exp o dv fuel0 (EDefault l r sep) root a
+  = scoped (absorbed e a1) (eval_exp o dv fuel0 r root (act_push (absorbed e a1))).
+Proof. exact default_on_failure. Qed.
+Print Assumptions c02_default_when_unset_partial.
+
+Theorem c02_default_not_used_when_set_partial : forall o dv fuel0 root a l r sep path a1 v a2,
+  scoped a (eval_exp o dv fuel0 l root (act_push a)) = Ok (path, a1) -> path <> "" ->
+  scoped a1 (ref_eval o dv fuel0 root (act_push a1)
+               (parse_path path sep (p_maxIdx (eo_p o)) (p_numKeys (eo_p o)) (p_escape (eo_p o))) sep)
+    = Ok (v, a2) -> v <> "" ->
+  eval_exp o dv fuel0 (EDefault l r sep) root a = Ok (v, a2).
+Proof. exact default_not_used. Qed.
+Print Assumptions c02_default_not_used_when_set_partial.
+
+Theorem c02_error_operator_partial : forall o dv fuel0 root a l r sep path a1 e pth m a3,
+  scoped a (eval_exp o dv fuel0 l root (act_push a)) = Ok (path, a1) -> path <> "" ->
+  scoped a1 (ref_eval o dv fuel0 root (act_push a1)
+               (parse_path path sep (p_maxIdx (eo_p o)) (p_numKeys (eo_p o)) (p_escape (eo_p o))) sep)
+    = Err e pth ->
+  scoped a1 (eval_exp o dv fuel0 r root (act_push a1)) = Ok (m, a3) ->
+  eval_exp o dv fuel0 (EErr l r sep) root a = Err EOther "!raw".
+Proof. exact error_operator_fails. Qed.
+Print Assumptions c02_error_operator_partial.
+
+Theorem c02_alternative_unset_partial : forall o dv fuel0 root a l r sep path a1 e pth,
+  scoped a (eval_exp o dv fuel0 l root (act_push a)) = Ok (path, a1) -> path <> "" ->
+  scoped a1 (ref_resolve o dv fuel0 root (act_push a1)
+               (parse_path path sep (p_maxIdx (eo_p o)) (p_numKeys (eo_p o)) (p_escape (eo_p o))) sep)
+    = Err e pth ->
+  eval_exp o dv fuel0 (EAlt l r sep) root a = Ok ("", absorbed e a1).
+Proof. exact alternative_unset_is_empty. Qed.
+Print Assumptions c02_alternative_unset_partial.
+
+(* the hypotheses are met by concrete configurations: the model's reads of a small tree *)
+Theorem c02_examples :
+  read_string demo_opts 60 demo_root "twice" (-1) = Ok "x-x"
+  /\ read_string demo_opts 60 demo_root "diamond" (-1) = Ok "x1x2"
+  /\ read_string demo_opts 60 demo_root "self" (-1) = Err ECyclic ""
+  /\ read_string demo_opts 60 demo_root "p" (-1) = Err ECyclic ""
+  /\ read_string demo_opts 60 demo_root "saved" (-1) = Ok "dflt".
+Proof. exact demo_reads. Qed.
+Print Assumptions c02_examples.
